@@ -78,7 +78,14 @@ func caseGen() *rapid.Generator[Case] {
 	key := rapid.Custom(func(t *rapid.T) gen.Item {
 		return gen.S(gen.StringOf([]string{"k", "h1", "h2", "h3", "name", "x y", "n\nl"}, 1, 2).Draw(t, "key"))
 	})
-	item := gen.StrItem(append([]string{"\n", "a\nb", "l1\nl2\nl3"}, gen.TokASCII...), 3)
+	short := gen.StrItem(append([]string{"\n", "a\nb", "l1\nl2\nl3"}, gen.TokASCII...), 3)
+	long := gen.BoundaryString([]string{"\"", ",", "<", "|", "a\nb"})
+	item := rapid.Custom(func(t *rapid.T) gen.Item {
+		if rapid.IntRange(0, 149).Draw(t, "long") == 0 {
+			return gen.S(long.Draw(t, "longv")) // buffered writers have sizes: a piece as large as the buffer
+		}
+		return short.Draw(t, "short")
+	})
 	sg := gen.ScriptGen(gen.ScriptOpts{Item: item, HdrItem: key, MinOps: 1, MaxOps: max, MaxCells: 3, HdrCells: [2]int{3, 5}, ForceHdr: true, NoSepAdd: true})
 	return rapid.Custom(func(t *rapid.T) Case {
 		c := Case{Script: sg.Draw(t, "script"), Style: rapid.SampledFrom(Styles).Draw(t, "style"), Align: rapid.SliceOfN(rapid.IntRange(0, 3), 0, 4).Draw(t, "align")}
